@@ -203,32 +203,7 @@ def bounded(tier, seed, repo):
                 "bound": "(fresh + 7 previous spellings) x (7 spellings + None), every derived attribute",
                 "evaluations": n, "exhaustive": True, "failures": fails})
     # (2) mode selection: option, else environment variable, else gregorian
-    from metomi.isodatetime.datetimeoper import DateTimeOperator
-    fails, n = [], 0
-    saved = os.environ.pop("ISODATETIMECALENDAR", None)
-    try:
-        for opt in [None, ""] + ["360day", "365day", "366day", "gregorian"]:
-            for envv in [None, "360day", "365day", "366day", "gregorian"]:
-                n += 1
-                if envv is None:
-                    os.environ.pop("ISODATETIMECALENDAR", None)
-                else:
-                    os.environ["ISODATETIMECALENDAR"] = envv
-                C.set_mode("gregorian")
-                DateTimeOperator(calendar_mode=opt)
-                want = opt or envv or "gregorian"
-                if C.mode != want and len(fails) < 5:
-                    fails.append({"id": "%s-%s" % (opt, envv),
-                                  "input": {"option": opt, "ISODATETIMECALENDAR": envv},
-                                  "observed": C.mode, "expected": want})
-    finally:
-        os.environ.pop("ISODATETIMECALENDAR", None)
-        if saved is not None:
-            os.environ["ISODATETIMECALENDAR"] = saved
-        C.set_mode("gregorian")
-    out.append({"name": "mode-selection", "kind": "exhaustive-finite",
-                "bound": "option in {None,'',4 modes} x environment in {unset, 4 modes}",
-                "evaluations": n, "exhaustive": True, "failures": fails})
+    out.append(mode_selection(repo))
     # (3) history differential (bounded stand-in for the history quantifier)
     modes = SPELLINGS if tier == "thorough" else ["gregorian", "360day", "365_day", "366day"]
     hd = history_differential(repo, modes)
@@ -238,3 +213,42 @@ def bounded(tier, seed, repo):
                 "evaluations": hd["evaluations"], "exhaustive": False,
                 "failures": hd["failures"]})
     return out
+
+
+def mode_selection(repo):
+    """option, else environment variable, else gregorian - whatever mode an earlier
+    operator left behind (finite domain, enumerated completely)"""
+    import os
+    import sys
+    if repo not in sys.path:
+        sys.path.insert(0, repo)
+    from metomi.isodatetime.data import CALENDAR as C
+    from metomi.isodatetime.datetimeoper import DateTimeOperator
+    fails, n = [], 0
+    saved = os.environ.pop("ISODATETIMECALENDAR", None)
+    try:
+        for prev in ["gregorian", "360day", "365day", "366day"]:
+            for opt in [None, ""] + ["360day", "365day", "366day", "gregorian"]:
+                for envv in [None, "", "360day", "365day", "366day", "gregorian"]:
+                    n += 1
+                    if envv is None:
+                        os.environ.pop("ISODATETIMECALENDAR", None)
+                    else:
+                        os.environ["ISODATETIMECALENDAR"] = envv
+                    C.set_mode(prev)
+                    DateTimeOperator(calendar_mode=opt)
+                    want = opt or envv or "gregorian"
+                    if C.mode != want and len(fails) < 5:
+                        fails.append({"id": "%s-%s-%s" % (prev, opt, envv),
+                                      "input": {"mode_left_by_previous_operator": prev,
+                                                "option": opt, "ISODATETIMECALENDAR": envv},
+                                      "observed": C.mode, "expected": want})
+    finally:
+        os.environ.pop("ISODATETIMECALENDAR", None)
+        if saved is not None:
+            os.environ["ISODATETIMECALENDAR"] = saved
+        C.set_mode("gregorian")
+    return {"name": "mode-selection", "kind": "exhaustive-finite",
+            "bound": "mode left by an earlier operator in {4 modes} x option in {None,'',4 modes} "
+                     "x environment in {unset,'',4 modes}",
+            "evaluations": n, "exhaustive": True, "failures": fails}
